@@ -13,6 +13,13 @@ package main
 //@ ghost var wantStatus bool scratch
 //@ func run
 // C12: --list, --list-all and --status are queries: the tasks named on the command line are never run for them
+// the cache of remote Taskfiles is deleted on request only (--clear-cache), and then as a whole: what was downloaded and
+// approved stays runnable from the cache, however many files there are and however old they get
+//@   site os.RemoveAll#0 requires flags.ClearCache                                                              [C20]
+//@   nosite os.Remove                                                                                           [C20]
+//@   nosite os.Rename                                                                                           [C20]
+//@   nosite os.Truncate                                                                                         [C20]
+//@   nosite os.WriteFile                                                                                        [C20]
 //@   init wantList := false
 //@   init wantStatus := false
 //@   site (ListOptions).ShouldListTasks#1 ghost wantList := result
